@@ -32,6 +32,7 @@ pub struct IoInner {
     pub shutdown: bool,
     pub dropped: bool,
     pub writes_after_shutdown: u32,
+    pub write_errors: u32,
     pub delivered: u64,
     pub read_total: u64,
     /// when set, the transport answers inside poll_write (reactive server, used by the sync lane)
@@ -53,6 +54,7 @@ impl IoInner {
             shutdown: false,
             dropped: false,
             writes_after_shutdown: 0,
+            write_errors: 0,
             delivered: 0,
             read_total: 0,
             reactor: None,
@@ -170,6 +172,7 @@ impl AsyncWrite for MemIo {
             WMode::AcceptThenErr(n) => {
                 if n == 0 {
                     g.wmode = WMode::Err;
+                    g.write_errors += 1;
                     return Poll::Ready(Err(io::Error::new(io::ErrorKind::BrokenPipe, "injected write error")));
                 }
                 let k = n.min(buf.len());
@@ -182,7 +185,10 @@ impl AsyncWrite for MemIo {
                 g.write_waker = Some(cx.waker().clone());
                 Poll::Pending
             }
-            WMode::Err => Poll::Ready(Err(io::Error::new(io::ErrorKind::BrokenPipe, "injected write error"))),
+            WMode::Err => {
+                g.write_errors += 1;
+                Poll::Ready(Err(io::Error::new(io::ErrorKind::BrokenPipe, "injected write error")))
+            }
         }
     }
 
